@@ -47,6 +47,19 @@ static inline int vrt_cmp_result(int sgn, unsigned salt)
     return m == 0x7fffffff && (salt & 0x10000) ? (-0x7fffffff - 1) : -m;
 }
 
+/* a non-zero visitor result ("stop") drawn from values that code is tempted to treat specially: +-1, +-2 (private
+ * "skip"/"prune" codes of a walker), values that vanish in a 1-bit, 8-bit or 16-bit field, even values, the ends of int.
+ * Any non-zero value means stop/accept and must be handed back unchanged. */
+static inline int vrt_stop_value(unsigned salt)
+{
+    static const int v[32] = { -1, 1, 2, -2, 3, -3, 4, 8, -8, 16, 64, 127, 128, -128, -129, 255, 256, -256, 512, 0x7fff, 0x8000, -0x8000,
+                               0xffff, 0x10000, -0x10000, 0x1000000, 0x40000000, 0x7ffffffe, 0x7fffffff, -0x7fffffff, -0x7fffffff - 1, 0x55aa00 };
+    return v[(salt ^ (salt >> 5) ^ (salt >> 11)) & 31];
+}
+
+/* a counter that starts at 0 with every case (so a case stays a pure function of its index): salt for vrt_stop_value etc. */
+unsigned vrt_case_tick(void);
+
 /* ---------- run parameters (valid in workers) ---------- */
 extern uint64_t vrt_seed;
 extern int vrt_thorough;        /* 0 quick, 1 thorough */
